@@ -357,8 +357,8 @@ func importedConst(pk *types.Package, path, name string) (*types.Const, bool) {
 
 func c01(r *core.Run) {
 	p := r.P
-	r.Explanation = "Decides on every path: the rejection probability handed to the random draw is max(0,(total-5-k*accepts)/(total+1)) with k written once as 1.5, accepts/total summed from Bucket.Sum/Bucket.Count of a 10 s window that includes the current bucket; a non-nil admission error is returned only when the draw succeeded; in the accounting function the request runs only after a nil admission result, the rejected path calls neither the request nor a mark and hands the admission error to the fallback (if any), every normal path after the request records exactly one outcome (success iff the acceptable-predicate applied to the request's error is true), the deferred recover closure is registered before the request, records exactly one failure and re-panics with the recovered value, and records nothing when there was no panic; success adds 1, failure adds 0 and outcomes are recorded only by the accounting functions and the promises; Accept/Reject of both promise types delegate to the like-named operation; Allow hands out a promise only when admitted; the logging wrapper, the Do* family and the named registry pass request, fallback and predicate through unchanged; the four benign-outcome predicates (gRPC codes, sql, redis, HTTP status) compute exactly the declared finite sets and every breaker call of the sql/redis/gRPC integrations passes its package's predicate; registry map and error window are touched only under their locks."
-	r.NotDecided = "ageing of outcomes out of the 10 s window and the limit 'probability approaching 1' (functions of the clock and of values; the RollingWindow arithmetic is not decided here nor under C09); behaviour under concurrent histories beyond lock discipline; that the random source is uniform."
+	r.Explanation = "Decides on every path: the rejection probability handed to the random draw is max(0,(total-5-k*accepts)/(total+1)) with k written once as 1.5, accepts/total summed from Bucket.Sum/Bucket.Count of a 10 s window that includes the current bucket; a non-nil admission error is returned only when the draw succeeded; in the accounting function the request runs only after a nil admission result, the rejected path calls neither the request nor a mark and hands the admission error to the fallback (if any), every normal path after the request records exactly one outcome (success iff the acceptable-predicate applied to the request's error is true), the deferred recover closure is registered before the request, records exactly one failure and re-panics with the recovered value, and records nothing when there was no panic; success adds 1, failure adds 0 and outcomes are recorded only by the accounting functions and the promises; Accept/Reject of both promise types delegate to the like-named operation; Allow hands out a promise only when admitted; the logging wrapper, the Do* family and the named registry pass request, fallback and predicate through unchanged; the four benign-outcome predicates (gRPC codes, sql, redis, HTTP status) compute exactly the declared finite sets and every breaker call of the sql/redis/gRPC integrations passes its package's predicate; registry map and error window are touched only under their locks; a breaker is inserted into the registry only on the not-found outcome of a lookup of the same name made under the write lock that is still held (one breaker per name for all goroutines), and what the registry returns is the breaker found or inserted under the name."
+	r.NotDecided = "ageing of outcomes out of the 10 s window and the limit 'probability approaching 1' (functions of the clock and of values; the RollingWindow arithmetic is not decided here nor under C09); behaviour under concurrent histories beyond lock discipline and the atomic check-then-insert of the registry (an inserting helper that itself releases and re-takes the lock before storing is not looked into; functions that overwrite an entry without lookup and without handing a breaker back, such as NoBreakerFor, are taken as deliberate replacement); that the random source is uniform."
 	c := newC01ctx(p)
 	need := func(o *core.O) bool {
 		for _, pr := range c.problems {
@@ -1194,28 +1194,33 @@ func c01(r *core.Run) {
 			}
 		}
 		for _, nw := range news {
-			if w := core.MustPass(core.After(nw), isReg(nw), core.IsReturn); w != nil {
-				o.Fail(p.InstrPos(w), "a breaker created by Get is returned without being registered under its name (every call would get a fresh, empty window)")
+			// a created breaker that is returned was registered on the way: decided per returned value
+			// and the edge it enters the result through (a breaker built before the lock is taken and
+			// dropped when the name turns out to be registered is never returned)
+			for _, ret := range core.Returns(f) {
+				gxLeavesWithEdges(core.Result(ret, 0), func(leaf ssa.Value, edge *core.Edge) {
+					if !core.IsResult(leaf, 0, core.Is(nw)) {
+						return
+					}
+					var target ssa.Instruction = ret
+					if edge != nil {
+						target = gxLast(edge.From)
+					}
+					if _, bad := core.Reach(core.Q{From: []core.At{core.After(nw)}, Target: core.Is(target), Blocked: isReg(nw)}); bad {
+						o.Fail(p.InstrPos(ret), "a breaker created by Get is returned without being registered under its name (every call would get a fresh, empty window)")
+					}
+				})
 			}
 			if !core.DependsOn(core.Args(nw)[0], isValueOf(f.Params[0])) {
 				o.Fail(p.InstrPos(nw), "the created breaker is not named after the requested name")
 			}
 		}
 		isLookup := func(v ssa.Value) bool {
-			e, ok := v.(*ssa.Extract)
-			if !ok || e.Index != 0 {
-				return false
-			}
-			l, ok := e.Tuple.(*ssa.Lookup)
-			return ok && core.IsGlobal(brkPkg, "breakers")(l.X) && isValueOf(f.Params[0])(l.Index)
+			l := c01LookupOf(v) // `b, ok := m[name]` or `b := m[name]`
+			return l != nil && core.IsGlobal(brkPkg, "breakers")(l.X) && isValueOf(f.Params[0])(l.Index)
 		}
 		for _, ret := range core.Returns(f) {
-			v := core.Result(ret, 0)
-			vals := []ssa.Value{v}
-			if phi, ok := v.(*ssa.Phi); ok {
-				vals = phi.Edges
-			}
-			for _, x := range vals {
+			for _, x := range gxPhiLeaves(core.Result(ret, 0)) {
 				if !isLookup(x) && !core.IsResult(x, 0, isNew) {
 					o.Fail(p.InstrPos(ret), "Get returns %s: neither the breaker registered under the name nor the one just created", core.Describe(x))
 				}
@@ -1599,6 +1604,8 @@ func c01(r *core.Run) {
 			}
 		}
 	})
+
+	c01Extra(r)
 }
 
 // spillOf reports whether al is the local slot into which parameter p was spilled.
